@@ -1278,13 +1278,47 @@ class FuncCanon(object):
             return True
         return False
 
+    def tailweb(self):
+        """`v = E` followed, in its block, by statements that always leave the function and never rebind v: only they can read this value, so the
+        assignment and those reads get a name of their own (v is bound elsewhere too, which kept the single-assignment rewrites away)."""
+        for blk in _all_blocks(self.fn):
+            for k, st in enumerate(blk[:-1]):
+                if not (isinstance(st, ast.Assign) and len(st.targets) == 1 and isinstance(st.targets[0], ast.Name)):
+                    continue
+                v = st.targets[0].id
+                if len(self.stores.get(v, ())) < 2 or v in self.captured or "__w" in v and False:
+                    continue
+                tail = blk[k + 1:]
+                if not always_leaves_function(tail) or _contains_own(tail, ast.Break) or _contains_own(tail, ast.Continue):
+                    continue
+                if any(isinstance(n, ast.Name) and n.id == v and not isinstance(n.ctx, ast.Load) for s_ in tail for n in ast.walk(s_)):
+                    continue
+                if any(isinstance(n, ast.Name) and n.id == v for n in ast.walk(st.value)):
+                    continue
+                if any(isinstance(n, (ast.FunctionDef, ast.AsyncFunctionDef, ast.Lambda, ast.ClassDef)) for s_ in tail for n in ast.walk(s_)):
+                    continue
+                if any(isinstance(t, ast.Try) and any(isinstance(n, ast.Name) and n.id == v for part in (t.handlers, t.finalbody) for x in part for n in ast.walk(x)) for t, _ in _fn_nodes(self.fn)):
+                    continue
+                reads = [n for s_ in tail for n in ast.walk(s_) if isinstance(n, ast.Name) and n.id == v]
+                base = v.split("__w")[0]
+                idx = 2
+                while ("%s__w%d" % (base, idx)) in self.stores or ("%s__w%d" % (base, idx)) in self.loads:
+                    idx += 1
+                new = "%s__w%d" % (base, idx)
+                st.targets[0].id = new
+                for n in reads:
+                    n.id = new
+                self.bump("WEBSPLIT")
+                return True
+        return False
+
     def pass_blocks(self):
-        if self.websplit():
+        if self.websplit() or self.tailweb():
             return True
         changed = False
         for blk in _all_blocks(self.fn):
             top = blk is self.fn.body
-            if self.prop(blk) or self.lencomp(blk) or self.star(blk) or self.callsel(blk) or self.tuplepush(blk) or self.sumloop(blk) or self.listcomp(blk) or self.unroll(blk) or self.listbuild(blk) or self.copyinout(blk) or self.lockwith(blk) or self.flagloop(blk) or self.ifflag(blk) or self.thread(blk) or self.deadstore(blk) or self.kw(blk) or self.split(blk) or self.retsplit(blk) or self.unindex(blk) or self.yieldsplit(blk) or self.forelse(blk) or self.dowhile(blk) or self.withsink(blk) or self.testsplit(blk) or self.rot(blk) or self.brk(blk, top) or self.wtop(blk) or self.ifs(blk) or self.sink(blk) or self.unpack(blk) or self.fwd(blk):
+            if self.prop(blk) or self.lencomp(blk) or self.star(blk) or self.callsel(blk) or self.tuplepush(blk) or self.sumloop(blk) or self.listcomp(blk) or self.unroll(blk) or self.listbuild(blk) or self.copyinout(blk) or self.copyin(blk) or self.lockwith(blk) or self.flagloop(blk) or self.ifflag(blk) or self.thread(blk) or self.deadstore(blk) or self.kw(blk) or self.split(blk) or self.retsplit(blk) or self.unindex(blk) or self.yieldsplit(blk) or self.forelse(blk) or self.dowhile(blk) or self.withsink(blk) or self.testsplit(blk) or self.rot(blk) or self.brk(blk, top) or self.wtop(blk) or self.ifs(blk) or self.sink(blk) or self.unpack(blk) or self.fwd(blk):
                 return True
         return changed
 
@@ -1579,6 +1613,126 @@ class FuncCanon(object):
             self.bump("LISTCOMP")
             return True
         return False
+
+    # -- COPYIN ----------------------------------------------------------------------------------------------------
+    def copyin(self, blk):
+        """`t = v` for a temporary t the inliner made (the helper updates the parameter it got v for), v not needed any more: t's statements work on
+        v itself.  "Not needed any more" is decided on the block structure: after the copy, v is read only (a) inside statements that follow a later
+        unconditional re-binding of v in their own straight-line prefix, that re-binding coming after the last use of t, or (b) nowhere the copy can
+        flow to (the statements after the copy in its block always leave the function).  Bindings of v between the copy and the last use of t are
+        plain copies back (`v = t`).  The copy is in no loop that mentions v elsewhere; the function has no try statement; no closures over t / v."""
+        if any(isinstance(n, ast.Try) for n, _ in _fn_nodes(self.fn)):
+            return False
+        for a, st in enumerate(blk):
+            if not (isinstance(st, ast.Assign) and len(st.targets) == 1 and isinstance(st.targets[0], ast.Name) and isinstance(st.value, ast.Name)):
+                continue
+            t, v = st.targets[0].id, st.value.id
+            if t not in self.fresh or t == v or v in self.captured or t in self.captured or v in self.fresh:
+                continue
+            if len([x for x in self.stores.get(t, []) if x is st.targets[0]]) != 1:
+                continue
+            # positions in program (pre-)order
+            pos, order, loops = {}, [0], []
+
+            def number(stmts):
+                for s_ in stmts:
+                    order[0] += 1
+                    start = order[0]
+                    for n in ast.walk(s_) if not isinstance(s_, (ast.If, ast.While, ast.For, ast.AsyncFor, ast.With, ast.AsyncWith, ast.Try)) else self._own_exprs(s_):
+                        pos[id(n)] = start
+                    if isinstance(s_, (ast.FunctionDef, ast.AsyncFunctionDef, ast.ClassDef)):
+                        continue
+                    for b in _blocks_of(s_):
+                        number(b)
+                    if isinstance(s_, (ast.While, ast.For, ast.AsyncFor)):
+                        loops.append((start, order[0], s_))
+            number(self.fn.body)
+            p_ = pos.get(id(st.targets[0]))
+            if p_ is None:
+                continue
+            t_occ = [n for n in self.loads.get(t, []) + self.stores.get(t, [])]
+            if any(id(n) not in pos for n in t_occ):
+                continue
+            t_last = max(pos[id(n)] for n in t_occ)
+            if min(pos[id(n)] for n in t_occ) < p_:
+                continue
+            v_loads = [n for n in self.loads.get(v, []) if n is not st.value]
+            v_stores = list(self.stores.get(v, []))
+            if any(id(n) not in pos for n in v_loads + v_stores):
+                continue
+            # the copy is in no loop that mentions v elsewhere or t outside
+            bad = False
+            for (lo, hi, lp) in loops:
+                if lo < p_ <= hi or lo == p_:
+                    if any(lo <= pos[id(n)] <= hi for n in v_loads + [x for x in v_stores]):
+                        inside = [n for n in v_loads + v_stores if lo <= pos[id(n)] <= hi]
+                        # copies back `v = t` are fine
+                        if any(not self._is_copy_back(n, v, t) for n in inside):
+                            bad = True
+            if bad:
+                continue
+            tail = blk[a + 1:]
+            tail_ids = set(id(n) for s_ in tail for n in ast.walk(s_))
+            leaves = always_leaves_function(tail) and not _contains_own(tail, ast.Break) and not _contains_own(tail, ast.Continue)
+            ok = True
+            for n in v_stores:
+                q = pos[id(n)]
+                if q > p_ and q <= t_last and not self._is_copy_back(n, v, t):
+                    ok = False
+            for n in v_loads:
+                q = pos[id(n)]
+                if q < p_:
+                    continue
+                if leaves and id(n) not in tail_ids:
+                    continue          # cannot be reached from the copy
+                if q <= t_last:
+                    ok = False
+                    break
+                # after the last use of t: fine when v is re-bound, unconditionally, in the straight-line prefix of the reading statement
+                blk_n = self._block_of(n)
+                pre = self._prefix_to(self.fn.body, blk_n[0]) if blk_n is not None else None
+                if pre is None:
+                    ok = False
+                    break
+                pre = pre + list(blk_n[0][:blk_n[1]])
+                rebound = False
+                for s_ in pre:
+                    if isinstance(s_, ast.Assign) and len(s_.targets) == 1:
+                        tg = s_.targets[0]
+                        names = [tg] if isinstance(tg, ast.Name) else [x for x in tg.elts if isinstance(x, ast.Name)] if isinstance(tg, (ast.Tuple, ast.List)) else []
+                        if any(x.id == v and pos.get(id(x), 0) > t_last for x in names) and not any(isinstance(x, ast.Name) and x.id == v for x in ast.walk(s_.value)):
+                            rebound = True
+                if not rebound:
+                    ok = False
+                    break
+            if not ok:
+                continue
+            for n in t_occ:
+                n.id = v
+            # the copy and the copies back are now `v = v`
+            for b in _all_blocks(self.fn):
+                b[:] = [s_ for s_ in b if not (isinstance(s_, ast.Assign) and len(s_.targets) == 1 and isinstance(s_.targets[0], ast.Name) and isinstance(s_.value, ast.Name)
+                                               and s_.targets[0].id == v and s_.value.id == v)] or [ast.copy_location(ast.Pass(), st)]
+            self.bump("COPYIN")
+            return True
+        return False
+
+    def _is_copy_back(self, n, v, t):
+        """the occurrence n of v is the target of a plain `v = t`"""
+        loc = self._block_of(n)
+        if loc is None:
+            return False
+        s_ = loc[0][loc[1]]
+        return isinstance(s_, ast.Assign) and len(s_.targets) == 1 and s_.targets[0] is n and isinstance(s_.value, ast.Name) and s_.value.id == t
+
+    def _block_of(self, node):
+        """(block, index) of the statement of this function that contains `node`"""
+        for b in _all_blocks(self.fn):
+            for k, s_ in enumerate(b):
+                own = ast.walk(s_) if not isinstance(s_, (ast.If, ast.While, ast.For, ast.AsyncFor, ast.With, ast.AsyncWith, ast.Try)) else self._own_exprs(s_)
+                if any(x is node for x in own):
+                    return b, k
+        return None
 
     # -- COPYINOUT -------------------------------------------------------------------------------------------------
     def copyinout(self, blk):
@@ -1892,6 +2046,44 @@ class FuncCanon(object):
         return False
 
     # -- THREAD ----------------------------------------------------------------------------------------------------
+    def _last_def_nn(self, name, prefix, exclude=None):
+        """the closest binding of `name` in the straight-line statements `prefix` (outermost first) before a point makes it never None;
+        None when no such binding is found there (a statement that may bind it in a nested block ends the search)"""
+        if NULLNESS is None:
+            return None
+        cls_ = getattr(self.fn, "_sa_cls", None)
+        asg = NULLNESS.local_assigns(self.fn)
+        if exclude:
+            asg = {k: x for k, x in asg.items() if k != exclude}
+        for s_ in reversed(prefix):
+            if isinstance(s_, ast.AugAssign) and isinstance(s_.target, ast.Name) and s_.target.id == name:
+                return True          # the result of an augmented assignment of numbers / bytes is a value
+            if isinstance(s_, ast.Assign) and len(s_.targets) == 1:
+                tg = s_.targets[0]
+                if isinstance(tg, ast.Name) and tg.id == name:
+                    return NULLNESS.nn(s_.value, cls_, self.fn, asg, None, NONNULL_CONSTS)
+                if isinstance(tg, (ast.Tuple, ast.List)) and not any(isinstance(x, ast.Starred) for x in tg.elts):
+                    hit = [k for k, x in enumerate(tg.elts) if isinstance(x, ast.Name) and x.id == name]
+                    if len(hit) == 1:
+                        return NULLNESS._elem_nn(s_.value, hit[0], cls_, self.fn, asg, set(), NONNULL_CONSTS)
+            if any(isinstance(n, ast.Name) and n.id == name and isinstance(n.ctx, (ast.Store, ast.Del)) for n in ast.walk(s_)):
+                return None
+        return None
+
+    @staticmethod
+    def _prefix_to(root, target):
+        """statements that precede the block `target` on the way down from the block `root` (straight-line ancestors), or None"""
+        if root is target:
+            return []
+        for k, st in enumerate(root):
+            if isinstance(st, (ast.FunctionDef, ast.AsyncFunctionDef, ast.ClassDef)):
+                continue
+            for b in _blocks_of(st):
+                r = FuncCanon._prefix_to(b, target)
+                if r is not None:
+                    return list(root[:k]) + r
+        return None
+
     def ifflag(self, blk):
         """`if c: A; v = K1` / `else: B; v = K2` ; `if T(v): S`   ->   `if c: A; if T(K1): S` / `else: B; if T(K2): S`
         when v (a local nobody else reads) is set to a literal at the very end of every arm: the test that follows is evaluated at the
@@ -2032,6 +2224,31 @@ class FuncCanon(object):
         ->  the breaks that make the test true run B themselves, the test disappears."""
         for i in range(len(blk) - 1):
             lp, iff = blk[i], blk[i + 1]
+            # `loop: .. v = X; break .. else: .. v = Y` ; `w = v`  (v a temporary read nowhere else)   ->   the loop assigns w itself
+            if isinstance(lp, (ast.While, ast.For, ast.AsyncFor)) and isinstance(iff, ast.Assign) and len(iff.targets) == 1 and isinstance(iff.targets[0], ast.Name) \
+                    and isinstance(iff.value, ast.Name) and iff.value.id in self.fresh and iff.value.id != iff.targets[0].id:
+                v_, w_ = iff.value.id, iff.targets[0].id
+                sites_ = _own_breaks(lp.body)
+                stores_ = self.stores.get(v_, [])
+                if len(self.loads.get(v_, [])) == 1 and v_ not in self.captured and w_ not in self.captured and sites_ and not any(o is None for o, _k in sites_) and stores_:
+                    ok_, hits = True, []
+                    for owner, k in sites_:
+                        if k >= 1 and isinstance(owner[k - 1], ast.Assign) and len(owner[k - 1].targets) == 1 and isinstance(owner[k - 1].targets[0], ast.Name) and owner[k - 1].targets[0].id == v_:
+                            hits.append(owner[k - 1].targets[0])
+                        else:
+                            ok_ = False
+                    infinite_ = isinstance(lp, ast.While) and _is_const_true(lp.test)
+                    if not infinite_:
+                        if lp.orelse and isinstance(lp.orelse[-1], ast.Assign) and len(lp.orelse[-1].targets) == 1 and isinstance(lp.orelse[-1].targets[0], ast.Name) and lp.orelse[-1].targets[0].id == v_:
+                            hits.append(lp.orelse[-1].targets[0])
+                        elif not (lp.orelse and always_exits(lp.orelse)):
+                            ok_ = False
+                    if ok_ and set(id(h) for h in hits) == set(id(x) for x in stores_) and all(isinstance(x, ast.Name) for x in stores_):
+                        for h in hits:
+                            h.id = w_
+                        del blk[i + 1]
+                        self.bump("THREAD")
+                        return True
             if not (isinstance(lp, (ast.While, ast.For, ast.AsyncFor)) and isinstance(iff, ast.If) and not iff.orelse):
                 continue
             t = iff.test
@@ -2045,10 +2262,11 @@ class FuncCanon(object):
                 v, mode = t.left.id, "isnot" if isinstance(t.ops[0], ast.IsNot) else "is"
             if mode is None or v in self.params or v in self.captured:
                 continue
-            if not always_leaves_function(iff.body) or _size(iff.body) > 2 or any(_has_call_other_than_pure(x) for x in iff.body):
-                continue
+            small = always_leaves_function(iff.body) and _size(iff.body) <= 2 and not any(_has_call_other_than_pure(x) for x in iff.body)
             if _contains_own(iff.body, ast.Break) or _contains_own(iff.body, ast.Continue):
                 continue
+            cls_ = getattr(self.fn, "_sa_cls", None)
+            asg_ = NULLNESS.local_assigns(self.fn) if NULLNESS is not None else None
 
             def decide(e):
                 """truth of the test for v == e; None if unknown"""
@@ -2056,6 +2274,8 @@ class FuncCanon(object):
                     isnone, truthy = e.value is None, bool(e.value)
                 elif isinstance(e, (ast.Tuple, ast.List)) and e.elts and not any(isinstance(x, ast.Starred) for x in e.elts):
                     isnone, truthy = False, True
+                elif mode in ("is", "isnot") and asg_ is not None and NULLNESS.nn(e, cls_, self.fn, {k_: x_ for k_, x_ in asg_.items() if k_ != v}, None, NONNULL_CONSTS):
+                    isnone, truthy = False, None          # a value that is never None (sa/nullness.py)
                 else:
                     return None
                 r = truthy if mode == "truthy" else (not isnone if mode == "isnot" else isnone)
@@ -2081,6 +2301,12 @@ class FuncCanon(object):
                     ok = False
                     break
                 d = decide(la.value)
+                if d is None and mode in ("is", "isnot") and isinstance(la.value, ast.Name) and la.value.id != v:
+                    # the value copied is bound, on the way to this break, by something that is never None
+                    pre_ = self._prefix_to(lp.body, owner)
+                    if pre_ is not None and self._last_def_nn(la.value.id, pre_ + list(owner[:owner.index(la)]), exclude=v) is True:
+                        r_ = (mode == "isnot")
+                        d = (not r_) if neg else r_
                 if d is None:
                     ok = False
                     break
@@ -2102,9 +2328,13 @@ class FuncCanon(object):
                         continue
             if not arrivals and else_verdict is None:
                 continue
+            places = sum(1 for _o, _k, d in arrivals if d) + (1 if else_verdict else 0)
+            if not small and places > 1:
+                continue          # a large body is moved to the one place that runs it, never duplicated
+            leaves = always_leaves_function(iff.body)
             for owner, k, d in sorted(arrivals, key=lambda a: -a[1]):
                 if d:
-                    owner[k:k + 1] = copy.deepcopy(iff.body)
+                    owner[k:k + 1] = copy.deepcopy(iff.body) + ([] if leaves else [owner[k]])
             if else_verdict:
                 lp.orelse.extend(copy.deepcopy(iff.body))
             del blk[i + 1]
@@ -2128,6 +2358,41 @@ class FuncCanon(object):
                         del blk[i]
                     self.bump("DEADSTORE")
                     return True
+        # statements after one that always leaves the block are never run
+        for i in range(len(blk) - 1):
+            if isinstance(blk[i], (ast.Return, ast.Raise, ast.Break, ast.Continue)) and not any(isinstance(n, (ast.Yield, ast.YieldFrom)) for s_ in blk[i + 1:] for n in ast.walk(s_)):
+                del blk[i + 1:]
+                self.bump("DEADCODE")
+                return True
+        # `v = <literal>` overwritten further down the same block before anything can read it
+        for i in range(len(blk) - 1):
+            st = blk[i]
+            if not (isinstance(st, ast.Assign) and len(st.targets) == 1 and isinstance(st.targets[0], ast.Name) and isinstance(st.value, ast.Constant)):
+                continue
+            v = st.targets[0].id
+            if v in self.params and False or v in self.captured:
+                continue
+            if any(isinstance(t, ast.Try) and any(isinstance(n, ast.Name) and n.id == v for part in (t.handlers, t.finalbody) for x in part for n in ast.walk(x)) for t, _ in _fn_nodes(self.fn)):
+                continue
+            if any(isinstance(n, (ast.Global, ast.Nonlocal)) for n, _ in _fn_nodes(self.fn)):
+                continue
+            dead = False
+            for s_ in blk[i + 1:]:
+                mentions = [n for n in ast.walk(s_) if isinstance(n, ast.Name) and n.id == v]
+                if not mentions:
+                    if isinstance(s_, (ast.Return, ast.Raise)):
+                        break            # (handled below)
+                    continue
+                if isinstance(s_, ast.Assign) and len(s_.targets) == 1 and not any(isinstance(n, ast.Name) and n.id == v for n in ast.walk(s_.value)):
+                    tg = s_.targets[0]
+                    if (isinstance(tg, ast.Name) and tg.id == v) or (isinstance(tg, (ast.Tuple, ast.List)) and any(isinstance(x, ast.Name) and x.id == v for x in tg.elts)
+                                                                    and all(isinstance(x, ast.Name) for x in tg.elts)):
+                        dead = True
+                break
+            if dead and not (blk is not self.fn.body and any(isinstance(n, (ast.Yield, ast.YieldFrom)) for n, _ in _fn_nodes(self.fn)) and False):
+                del blk[i]
+                self.bump("DEADSTORE")
+                return True
         # `v = <literal>` directly before the function is left (`return` / `raise` that do not read v; no enclosing try-finally could read it either
         # when v is never read inside a finally block): the store dies with the frame
         for i in range(len(blk) - 1):
